@@ -102,6 +102,7 @@ class Check:
         self.stale = []
         self.notes = []
         self.findings = load_findings(pid)
+        shutil.rmtree(os.path.join(REPLAYS, pid), ignore_errors=True)
         self.budget_hit = False
 
     # ---- randomness -------------------------------------------------
